@@ -1,5 +1,92 @@
-(* placeholder while the pipeline is brought up *)
-From MM Require Import Base.Num Base.GEComb.
-Theorem C01_placeholder : forall n, C n 0 = 1%Z.
-Proof. exact C_n0. Qed.
-Print Assumptions C01_placeholder.
+(* Properties/C01.v — Mann-Whitney exact test: U is the pair count, P the exact permutation tail.
+   ONLY statements; each is closed by [exact] of a lemma from Proofs/Utest.v, Proofs/UtestP.v.
+   The model (Model/Utest.v) is generic in the value type A and its three-way comparison cmp, which is
+   assumed to be a total preorder (reflexive, antisymmetric up to CompOpp, transitive) — Z.compare and
+   Qcompare (the instance the check runs on the decoded float64 values) satisfy this, see the Examples.
+   pool = the pooled values from the largest down; count_le cmp pool n1 w = number of the C(n1+n2,n1)
+   relabellings (size-n1 subsets of the pool taken as the first sample) whose 2U is <= w. *)
+From Coq Require Import List ZArith QArith Permutation.
+From MM Require Import Base.Num Base.GEComb Base.GESort Spec.Ucount Model.GEChoose Model.Udist Model.Utest
+  Proofs.Utest Proofs.UtestP.
+Import ListNotations.
+Local Open Scope Z_scope.
+
+Definition total_preorder {A} (cmp : A -> A -> comparison) : Prop :=
+  (forall a, cmp a a = Eq) /\ (forall a b, cmp b a = CompOpp (cmp a b)) /\
+  (forall a b c, cmp a b <> Gt -> cmp b c <> Gt -> cmp a c <> Gt).
+
+(* U = R1 - n1(n1+1)/2 from the average ranks of the merged sorted samples is the pair count:
+   2U = 2 #{(a,b) : a > b} + #{(a,b) : a = b}, for ALL samples (any order, ties, sizes) *)
+Theorem C01_U_is_pair_count : forall {A} (cmp : A -> A -> comparison), total_preorder cmp ->
+  forall x1 x2 : list A, ms_twoU (mw_stat cmp x1 x2) = twoU_pairs cmp x1 x2.
+Proof. intros A cmp (Hr & Ha & Ht). exact (mw_U_is_pair_count cmp Hr Ha Ht). Qed.
+Print Assumptions C01_U_is_pair_count.
+
+(* T lists the multiplicities of the distinct pooled values in ascending order; the merged list is the
+   sorted pool; hasTies <-> some multiplicity exceeds 1 *)
+Theorem C01_T_is_tie_vector : forall {A} (cmp : A -> A -> comparison), total_preorder cmp ->
+  forall x1 x2 : list A,
+  let s := mw_stat cmp x1 x2 in let z := mvals (merged cmp x1 x2) in
+  grouped (flip cmp) (ms_T s) z /\ Permutation z (x1 ++ x2) /\ sorted (leb cmp) z /\
+  Forall (fun t => (1 <= t)%nat) (ms_T s) /\ lsum (ms_T s) = (length x1 + length x2)%nat /\
+  ms_ties s = has_ties (ms_T s).
+Proof. intros A cmp (Hr & Ha & Ht). exact (mw_T_is_tie_vector cmp Hr Ha Ht). Qed.
+Print Assumptions C01_T_is_tie_vector.
+
+(* the result on the exact branch: N1, N2, the pair-count U, and the three tail formulas on UDist.CDF *)
+Theorem C01_exact_result : forall {A} (cmp : A -> A -> comparison), total_preorder cmp ->
+  forall (cdf : nat -> nat -> list nat -> Q -> Q) EL TL (x1 x2 : list A) alt,
+  x1 <> [] -> x2 <> [] ->
+  let s := mw_stat cmp x1 x2 in
+  use_exact (ms_ties s) (length x1) (length x2) EL TL = true -> length (ms_T s) <> 1%nat ->
+  mw_test cmp cdf EL TL x1 x2 alt =
+  MWExact (length x1) (length x2) (twoU_pairs cmp x1 x2)
+          (mw_exact_p (cdf (length x1) (length x2) (ms_T s)) (length x1) (length x2) (twoU_pairs cmp x1 x2) alt)
+          (mw_spec_p (cdf (length x1) (length x2) (ms_T s)) (length x1) (length x2) (twoU_pairs cmp x1 x2) alt).
+Proof. intros A cmp (Hr & Ha & Ht). exact (mw_exact_result cmp Hr Ha Ht). Qed.
+Print Assumptions C01_exact_result.
+
+(* P(LocationLess) = Pr[U' <= U] over all C(n1+n2,n1) relabellings (rests on C02's counting theorems) *)
+Theorem C01_less_is_perm_tail : forall {A} (cmp : A -> A -> comparison), total_preorder cmp ->
+  forall x1 x2 : list A, x1 <> [] -> x2 <> [] ->
+  let s := mw_stat cmp x1 x2 in length (ms_T s) <> 1%nat ->
+  (mw_exact_p (udist_cdf (length x1) (length x2) (ms_T s)) (length x1) (length x2) (ms_twoU s) (-1) ==
+   inject_Z (count_le cmp (pool cmp x1 x2) (length x1) (ms_twoU s)) / inject_Z (C (length x1 + length x2) (length x1)))%Q.
+Proof. intros A cmp (Hr & Ha & Ht). exact (mw_less_is_perm_tail cmp Hr Ha Ht). Qed.
+Print Assumptions C01_less_is_perm_tail.
+
+(* P(LocationGreater) = Pr[U' >= U] = (C - #{2U' <= 2U - 1}) / C   (repaired code, D3) *)
+Theorem C01_greater_is_perm_tail : forall {A} (cmp : A -> A -> comparison), total_preorder cmp ->
+  forall x1 x2 : list A, x1 <> [] -> x2 <> [] ->
+  let s := mw_stat cmp x1 x2 in length (ms_T s) <> 1%nat ->
+  (mw_exact_p (udist_cdf (length x1) (length x2) (ms_T s)) (length x1) (length x2) (ms_twoU s) 1 ==
+   inject_Z (C (length x1 + length x2) (length x1) - count_le cmp (pool cmp x1 x2) (length x1) (ms_twoU s - 1))
+   / inject_Z (C (length x1 + length x2) (length x1)))%Q.
+Proof. intros A cmp (Hr & Ha & Ht). exact (mw_greater_is_perm_tail cmp Hr Ha Ht). Qed.
+Print Assumptions C01_greater_is_perm_tail.
+
+(* Finding D2: the two-sided exact value the code computes, 2*CDF(min(U1,U2)), is NOT the specified
+   min(1, 2 min(Pr[U'<=U], Pr[U'>=U])): witness {2,1,3,5} vs {1,1,1,1,1} (0 vs 12/126) *)
+Theorem C01_two_sided_refuted : exists x1 x2 : list Z,
+  match mw_test Z.compare udist_cdf 50 25 x1 x2 0 with
+  | MWExact _ _ _ p pspec => ~ (p == pspec)%Q
+  | _ => False
+  end.
+Proof. exact mw_two_sided_refuted. Qed.
+Print Assumptions C01_two_sided_refuted.
+
+(* ---------- non-vacuity ---------- *)
+Example C01_Z_is_total_preorder : total_preorder Z.compare.
+Proof. exact (conj Zcmp_refl (conj Zcmp_antisym Zcmp_trans)). Qed.
+Example C01_Q_is_total_preorder : total_preorder Qcompare.
+Proof. exact (conj Qcmp_refl (conj Qcmp_antisym Qcmp_trans)). Qed.
+(* tied, two-valued and untied inputs on the exact branch *)
+Example C01_examples :
+  mw_test Z.compare udist_cdf 50 25 [2; 1; 3; 5] [1; 1; 1; 1; 1] (-1) = MWExact 4 5 35 (126 # 126) (126 # 126) /\
+  twoU_pairs Z.compare [2; 1; 3; 5] [1; 1; 1; 1; 1] = 35 /\
+  count_le Z.compare (pool Z.compare [2; 1; 3; 5] [1; 1; 1; 1; 1]) 4 35 = 126 /\
+  ms_T (mw_stat Z.compare [0; 1; 1] [1; 0]) = [2; 3]%nat /\
+  (match mw_test Z.compare udist_cdf 50 25 [0; 1; 1] [1; 0] 1 with MWExact 3 2 7 p _ => Qred p = (7 # 10)%Q | _ => False end) /\
+  (match mw_test Z.compare udist_cdf 50 25 [5; 1; 4] [2; 3; 6; 0] (-1) with MWExact 3 4 14 p _ => Qred p = (24 # 35)%Q | _ => False end) /\
+  count_le Z.compare (pool Z.compare [5; 1; 4] [2; 3; 6; 0]) 3 14 = 24.
+Proof. vm_compute. repeat split; reflexivity. Qed.
